@@ -1,10 +1,11 @@
 #!/bin/bash
 # usage: scripts/run_all.sh quick|thorough [props...] — runs the registered checks in sequence, prints a summary
-cd /verif
+V=$(cd "$(dirname "$0")/.." && pwd); cd "$V"
 T=${1:-quick}; shift
 PROPS=${@:-$(python3 -c "import json;print(' '.join(c['property_id'] for c in json.load(open('MANIFEST.json'))['checks']))")}
+mkdir -p out
 for p in $PROPS; do
   s=$(date +%s)
-  ./check.sh $p $T > /verif/out/$p.$T.log 2>&1; rc=$?
-  echo "$p $T rc=$rc $(( $(date +%s)-s ))s :: $(grep '^simrun:\|^VIOLATION\|^KNOWN\|HARNESS-TROUBLE' /verif/out/$p.$T.log | head -3 | tr '\n' ' ' | cut -c1-260)"
+  ./check.sh $p $T > out/$p.$T.log 2>&1; rc=$?
+  echo "$p $T rc=$rc $(( $(date +%s)-s ))s :: $(grep '^simrun:\|^VIOLATION\|^KNOWN\|HARNESS-TROUBLE' out/$p.$T.log | head -3 | tr '\n' ' ' | cut -c1-260)"
 done
